@@ -681,34 +681,111 @@ func c7Eager(c *Ctx) {
 		}
 		c.Check(eager && !lazy, "R7.10", fn.String(), "eager", fn.Pos(), "the fields are handed to core.With at derivation time (eager=%v, through NewLazyWith=%v): a later change of a mutable field value must not show up", eager, lazy)
 	}
-	// consoleEncoder.Clone: through a clone that copies the accumulated context bytes
-	jClone := c.Method(CorePath, "jsonEncoder", "Clone")
-	cc := c.Method(CorePath, "consoleEncoder", "Clone")
-	if c.Anchor("R7.10", "zapcore.consoleEncoder.Clone / jsonEncoder.Clone", jClone != nil && cc != nil) {
-		copying := map[*ssa.Function]bool{jClone: true}
-		for _, f := range Region(jClone) {
-			for _, g := range Region(f) {
-				for _, cl := range Calls(g) {
-					if IsCallTo(cl, "(*go.uber.org/zap/buffer.Buffer).Write", "(*go.uber.org/zap/buffer.Buffer).AppendBytes") {
-						copying[f] = true
+	c7CloneCarries(c, "R7.10")
+}
+
+// c7CloneCarries: by path exploration of jsonEncoder.Clone and consoleEncoder.Clone with the receiver holding one open
+// namespace: the clone gets the accumulated context bytes, the same configuration, the same spacing and the same
+// count of open namespaces - however the copy is written. A clone that forgets the count emits the context with its
+// namespaces unclosed; one that forgets the bytes drops the fields of every ancestor logger.
+func c7CloneCarries(c *Ctx, rule string) {
+	for _, tn := range []string{"jsonEncoder", "consoleEncoder"} {
+		fn := c.Method(CorePath, tn, "Clone")
+		jn := c.Named(CorePath, "jsonEncoder")
+		if !c.Anchor(rule, "zapcore."+tn+".Clone", fn != nil && jn != nil && len(fn.Params) == 1) {
+			continue
+		}
+		rn := fn.Params[0].Name()
+		resolve := func(st *ConcState, v ssa.Value) ssa.Value {
+			for k := 0; k < 16 && v != nil; k++ {
+				switch x := v.(type) {
+				case *ssa.ChangeType:
+					v = x.X
+					continue
+				case *ssa.MakeInterface:
+					v = x.X
+					continue
+				}
+				nx := st.Step(v)
+				if nx == nil {
+					break
+				}
+				v = nx
+			}
+			return v
+		}
+		isJSON := func(t types.Type) bool {
+			n, _ := types.Unalias(deref(t)).(*types.Named)
+			return n != nil && n.Obj() == jn.Obj()
+		}
+		fromRecv := func(d string) bool { return d == rn || strings.HasPrefix(d, rn+".") }
+		seqs, trunc := ConcPaths(fn, ConcCfg{
+			MaxDepth: 8,
+			Conc: func(d string) (int64, bool) {
+				if fromRecv(d) && (strings.HasSuffix(d, ".openNamespaces") || strings.HasSuffix(d, ".spaced")) {
+					return 1, true
+				}
+				return 0, false
+			},
+			Inline:    func(h *ssa.Function) bool { return h.Pkg != nil && h.Pkg.Pkg.Path() == CorePath },
+			InlineAny: func(h *ssa.Function) bool { r := RecvNamed(h); return r != nil && r.Obj() == jn.Obj() },
+			Event: func(in ssa.Instruction, st *ConcState) string {
+				switch x := in.(type) {
+				case *ssa.Call:
+					if IsCallTo(x, "(*go.uber.org/zap/buffer.Buffer).Write", "(*go.uber.org/zap/buffer.Buffer).AppendBytes", "(*go.uber.org/zap/buffer.Buffer).AppendString", "(*go.uber.org/zap/buffer.Buffer).WriteString") {
+						a := Args(x)
+						if src, ok := resolve(st, a[1]).(*ssa.Call); ok && IsCallTo(src, "(*go.uber.org/zap/buffer.Buffer).Bytes", "(*go.uber.org/zap/buffer.Buffer).String") {
+							if fromRecv(st.Desc(Args(src)[0])) && !fromRecv(st.Desc(a[0])) {
+								return "copy-context"
+							}
+						}
 					}
+				case *ssa.Return:
+					r := resolve(st, x.Results[0])
+					var enc ssa.Value
+					switch {
+					case r != nil && isJSON(r.Type()):
+						enc = r
+					default:
+						// a struct value holding the JSON encoder
+						if _, _, v := st.FieldOf(r, "jsonEncoder"); v != nil {
+							enc = resolve(st, v)
+						} else if sf := structValueFields(x.Results[0]); sf["jsonEncoder"] != "" {
+							return "ret(?" + sf["jsonEncoder"] + ")"
+						}
+					}
+					if enc == nil {
+						return "ret(?" + st.Desc(x.Results[0]) + ")"
+					}
+					out := "ret("
+					for _, f := range []string{"openNamespaces", "spaced"} {
+						if k, known, _ := st.FieldOf(enc, f); known {
+							out += f + "=" + itoa(int(k)) + ","
+						} else {
+							out += f + "=?,"
+						}
+					}
+					if _, _, v := st.FieldOf(enc, "EncoderConfig"); v != nil && fromRecv(st.Desc(v)) {
+						out += "config=same"
+					} else {
+						out += "config=?"
+					}
+					return out + ")"
 				}
+				return ""
+			},
+		})
+		if trunc || len(seqs) == 0 {
+			c.Und(rule, fn.String(), "clone-carries-context", fn.Pos(), "path exploration incomplete (%d sequences)", len(seqs))
+			continue
+		}
+		var bad []string
+		for _, sq := range seqs {
+			if sq != "copy-context ; ret(openNamespaces=1,spaced=1,config=same)" {
+				bad = append(bad, sq)
 			}
 		}
-		ok := false
-		var used []string
-		for _, cl := range CallsDeep(cc) {
-			if sc := StaticCallee(cl); sc != nil && RecvNamed(sc) != nil && RecvNamed(sc).Obj().Name() == "jsonEncoder" {
-				used = append(used, sc.Name())
-				if copying[sc] {
-					ok = true
-				}
-			}
-			if cl.Common().IsInvoke() && cl.Common().Method.Name() == "Clone" {
-				ok = true
-			}
-		}
-		c.Check(ok, "R7.10", cc.String(), "clone-carries-context", cc.Pos(), "the console encoder is cloned through a JSON-encoder clone that copies the accumulated context bytes (uses %v); a bare pooled clone would drop the fields of every ancestor logger", used)
+		c.Check(len(bad) == 0, rule, fn.String(), "clone-carries-context", fn.Pos(), "on every path the clone receives the accumulated context bytes, the receiver's configuration and spacing and its count of open namespaces (explored with one namespace open): %v", bad)
 	}
 }
 
